@@ -12,7 +12,7 @@ CHECKS = {
         text="Lru.tla states the cache as a state machine with the five clauses of the property as invariants/action "
              "properties over a ghost clock; TLC checks them exhaustively in small scopes and every transition of those "
              "state graphs is executed on storage.LRUCache (return values, resident and dirty sets compared); random long "
-             "runs at capacities up to 64 are recorded from the real cache and validated by TLC against LruTrace.tla. Store level: seeded runs of real statements in which a page write of a flush fails (injected I/O error): the flush must report it, the page must stay dirty and resident, and after every clean page is evicted all tables still read as the history implies (order of events validated against WalOrder.tla, WritePageFails).",
+             "runs at capacities up to 64 are recorded from the real cache and validated by TLC against LruTrace.tla. Store level: seeded runs of real statements in which a page write of a flush fails (injected I/O error): the flush must report it, the page must stay dirty and resident, and after every clean page is evicted all tables still read as the history implies (order of events validated against WalOrder.tla, WritePageFails). Directed tail workload at capacities 600 / 1100: the only clean page at depth 1, 2, 2^k-1, 2^k, 2^k+1, ..., cap from the cold end of a cache otherwise full of unsaved pages (LruTrace.tla).",
         design_ref="DESIGN.md 6 (C15)",
         note="Trusted: TLC, the Json module, the in-package accessor that forwards to LRUCache.set/get and reads its list. "
              "Bounded: 2-5 keys, capacity 1-4, depth 5-8 exhaustively; capacities 2-64 randomly.",
@@ -80,7 +80,7 @@ CHECKS = {
         text="Store.tla with invalid rows at every position k of multi-row INSERTs, failing UPDATEs, unknown tables and duplicate CREATE "
              "TABLE; the promise after an error is the unchanged abstract state; TLC enumerates histories x failing statements x k; each "
              "path ending in a failing statement is replayed on the real engine and SELECT * / catalog compared before/after, after "
-             "flush+cache drop, after restart and after crash+recovery. Multi-row UPDATEs with mixed outcomes (a later or the first matching row refused) come from ValueStore.tla with MixedUpd: the refused statement must leave every row as it was, immediately and after flush / evict / restart, on the direct and the SQL-text path.",
+             "flush+cache drop, after restart and after crash+recovery. Multi-row UPDATEs with mixed outcomes (a later or the first matching row refused) come from ValueStore.tla with MixedUpd: the refused statement must leave every row as it was, immediately and after flush / evict / restart, on the direct and the SQL-text path. ValueStore!PutTwo (configuration guarded-put): every refused row also as the SECOND row of a two-row INSERT behind a row the table accepts - nothing of the statement may be stored.",
         design_ref="DESIGN.md 6 (C14)",
         note="Known finding partial-stmt-error (open): rows before the failing one stay applied; identified by the specification's taint "
              "(error after n > 0 applied row operations). Failing-first-row statements, duplicate tables, unknown tables must pass.",
@@ -128,7 +128,7 @@ CHECKS = {
              "property on the machine and enumerates every stream of up to 3-4 records (10-12 for a two-class alphabet) over nine "
              "record classes for 8-13 schema/mapping/separator configurations; every stream is rendered as CSV (three line-end "
              "renderings), imported by the real colDataTypes+doBatchInsert into a fresh database behind the real RelationService, "
-             "and the ok/err event order and SELECT * are compared for equality with what TLC printed. A panic in the import's own goroutine (which kills the process) is attributed to the running scenario and reported as a violation.",
+             "and the numbers of ok / err reports and SELECT * are compared with what TLC printed (the arrival order of reports of different records is not part of the property). A panic in the import's own goroutine (which kills the process) is attributed to the running scenario and reported as a violation.",
         design_ref="DESIGN.md 6 (C19)",
         note="Trusted: TLC, Json module, the in-package harness (CSV rendering by the usual quoting rule, event/row copying). "
              "Value tables are finite (which decimal texts are 32/64-bit, booleans true/false/1/0); malformed quoting limited to "
@@ -159,7 +159,7 @@ CHECKS = {
              "component sets (137 tables of 0-3 rows over INT/VARCHAR/BOOLEAN/BIGINT, 765 WHERE shapes incl. `x AND y OR z` and `x OR y AND z`, "
              "17 list/order combinations, 25 LIMIT/OFFSET pairs); every element is used at least once plus a seeded sample of the product; each "
              "case is rendered as SQL text in 8 styles, run through the real parser and EvaluateSelect on a real database, and TLC "
-             "(SqlSemJudge.tla) evaluates ResultOK on what came back.",
+             "(SqlSemJudge.tla) evaluates ResultOK on what came back. Also: the largest LIMIT / OFFSET with small ones (SqlSemGen!LimOffs5), strings that spell keywords and operators as data and literals (KwStrs5), tables with a past (rows deleted again before the query).",
         design_ref="DESIGN.md 6 (C05)",
         note="Bounded-exhaustive over components, sampled over their product (counts in the evidence). Trusted: TLC as evaluator, the SQL "
              "renderer and result serialiser in harness/cmd/sem. NULL operands are outside the property and not generated.",
@@ -183,7 +183,11 @@ CHECKS = {
              "AVG within 1/2 of sum/count (both neighbours on exact ties), all zeros for an empty input without GROUP BY; SqlSemGen.tla enumerates "
              "702 tables whose grouping values collide when printed and concatenated ((1,23) vs (12,3)), NULL-bearing counted columns, 11 "
              "list/group shapes (grouping column by name, qualifier, alias, any position, two columns comma separated) on top of 3 WHEREs; every "
-             "third case is re-run with the rows inserted in reverse order; TLC evaluates ResultOK on the real results.",
+             "third case is re-run with the rows inserted in reverse order; TLC evaluates ResultOK on the real results. "
+             "Text grouping values that are confused side by side (NULL / empty string, separator characters); every third database has a past "
+             "(rows inserted among the others and deleted again before the query: tombstones are not rows); many groups: a table of 100 000 rows "
+             "(400 000 thorough) with pairwise distinct random grouping values - one row = one group - judged by SqlSem!DistinctGroupsOK, "
+             "ResultOK specialised to that shape (TLC decides it on 10^5 rows; DistinctGroupsAgree is evaluated on small tables every run).",
         design_ref="DESIGN.md 6 (C07)",
         note="Known finding avg-running-rounding (open; cannot be repaired because existing tests pin contradictory roundings) is recognised by a "
              "signature evaluated on the case: groups and counts right and every AVG cell equal to the code's running rounded mean.",
@@ -213,7 +217,7 @@ CHECKS = {
              "classes (32/64-bit boundaries, NULL, booleans, wrong types, strings sizing the row to 399/400/401 bytes, empty string) and "
              "interleavings with the lifecycle steps; every explored Get transition is executed on the real engine with direct statement values "
              "(EvaluateInsert/EvaluateUpdate) and, where expressible, as SQL text (Session.ExecQuery); accept/refuse and the rows read back "
-             "(EvaluateSelect) are compared bit for bit with what was supplied.",
+             "(EvaluateSelect) are compared bit for bit with what was supplied. Configuration two-rows-upd: two rows, then an UPDATE of some columns (a NULL in a column the statement does not assign stays NULL).",
         design_ref="DESIGN.md 6 (C08)",
         note="Trusted: TLC, Json module, accessor zz_verif_valstore.go (flusher off via hook H1, flushPages, cache replacement). Restart = Close + "
              "InitStorage + USE in-process (crashes: C02-C04). UPDATE only without WHERE and only with uniform outcome over rows (partial failure: "
@@ -228,7 +232,7 @@ CHECKS = {
              "on every column and on unknown names, joins with unknown tables, INSERT/UPDATE/DELETE/CREATE TABLE with confused values and "
              "names) and the session states {no USE, after a failed USE, empty tables, NULL-bearing rows}; every element is used at least once "
              "plus a seeded sample of the product; each statement goes through Session.ExecQuery under recover() and a watchdog; the "
-             "specification's postcondition is `result or error value`. The driver delivers the flusher's tick after every statement (under the hang watchdog), so a statement that leaves the store locked shows as a hang.",
+             "specification's postcondition is `result or error value`. The driver delivers the flusher's tick after every statement (under the hang watchdog), so a statement that leaves the store locked shows as a hang. Every ordered pair of columns as sort keys (Orders8Pairs) and every window holding the largest LIMIT / OFFSET run against every table.",
         design_ref="DESIGN.md 6 (C18)",
         note="The oracle is deliberately trivial (no panic, no hang); the specification supplies the structure of the input space and the "
              "session states. Found and repaired with it: avg-orderby-type-assert; failed-use-nil-service (with C17).",
@@ -241,7 +245,7 @@ CHECKS = {
              "(75 token kinds, 22 lexical classes: integers beyond 64 bits, hex/underscore/float literals, lone and unterminated quotes of each "
              "kind, NUL, invalid UTF-8, comment openers); plus all token sequences up to length 2 (quick) / 3 (thorough) and seeded random byte "
              "strings. Each input goes through NewTokenScanner+Parser.Parse exactly as engine.parseSQL does, under recover(), a 2 s watchdog and "
-             "an allocation meter. Postcondition from the specification: a statement or an error value.",
+             "an allocation meter. Postcondition from the specification: a statement or an error value. Phase deep: conditions of millions of operands, and millions of nested opening parentheses / prefix operators at every place an expression may begin.",
         design_ref="DESIGN.md 6 (C09)",
         note="Trusted: TLC, Json, the token renderer. Bounded: 16 cover statements, <=1 junk token over the full vocabulary (quick), <=2 over a "
              "32-token vocabulary (thorough), sequences <=2/3. Memory is measured, not modelled.",
@@ -254,7 +258,7 @@ CHECKS = {
              "GROUP BY/ORDER BY lists, LIMIT/OFFSET, INSERT rows x values, SET lists, column definitions, CREATE/USE/SHOW) with its token "
              "sequence; the harness spells each in up to 38 renderings (optional INNER/AS/ASC, terminator, keyword case, white space, both "
              "GROUP BY list forms), parses as engine.parseSQL does and maps the Go AST field by field to the specification's shape; equality "
-             "is required, list lengths included. Statements followed by a token that can never continue one must not parse.",
+             "is required, list lengths included. Statements followed by a token that can never continue one must not parse. One spelling in three writes integers with leading zeros.",
         design_ref="DESIGN.md 6 (C10)",
         note="Trusted: TLC, Json, renderer, AST converter. Bounded-exhaustive per clause, not the full product; statements the parser refuses by "
              "design (validateGroupByFields) are excluded by SqlGrammar!GroupOK.",
